@@ -9,9 +9,12 @@ MAXDEPTH = 4
 
 
 def _feasible_runs(prog, func, ev):
-    en = Enumerator(unroll=1)
+    from .paths import desugared_body
+    en = Enumerator(unroll=1, prog=prog, cls=func.cls, inline=func.cls is not None)
+    body = desugared_body(func)
+    en.fnode = ast.Module(body=body, type_ignores=[])
     out = []
-    for p in en.block(func.node.body):
+    for p in en.block(body):
         r = replay(prog, func, p, evalr=ev)
         if r.feasible:
             out.append(r)
